@@ -126,7 +126,7 @@ def scenario(rng, kind=None, mode=None, removal=None, builtin_p=0.6, prog_p=0.4)
     if mode == "temp":
         sc["Tperm"] = rng.uniform(200.0, T0 - 25.0)
     elif mode == "press":
-        sc["pperm"] = rng.uniform(0.0, 3.0)
+        sc["pperm"] = 0.0 if rng.random() < 0.15 else rng.uniform(0.0, 3.0)       # 0 kPa exactly is a stated pressure too
     if kind.startswith("nonideal"):
         single_off = rng.random() < 0.5        # single curve at a temperature different from T0
         t_curve = None if single_off else T0
@@ -174,11 +174,15 @@ def conditions_of(sc):
 
 
 def initial_perms(sc):
+    """the caller's initial permeances: ONE pair of objects per scenario, handed to every run made from it (also to its twin)"""
     if sc["P0"] is None:
         return None
-    p1, p2, u = sc["P0"]
-    mix = sc["mix"]
-    return (pv.Permeance(value=p1).convert(u, mix.first_component), pv.Permeance(value=p2).convert(u, mix.second_component))
+    if sc.get("_P0objects") is None:
+        p1, p2, u = sc["P0"]
+        mix = sc["mix"]
+        sc["_P0objects"] = (pv.Permeance(value=p1).convert(u, mix.first_component), pv.Permeance(value=p2).convert(u, mix.second_component))
+        sc["_P0supplied"] = [(float(q.value), q.units) for q in sc["_P0objects"]]
+    return sc["_P0objects"]
 
 
 def call_model(perv, sc, cond):
@@ -265,9 +269,8 @@ def start_line(sc, res):
             "hasProg": prog is not None and not sc["kind"].endswith("_iso"),
             "prog": None if prog is None else {"type": prog.type, "coeffs": [F(c) for c in prog.coefficients]},
             "P0given": sc["P0"] is not None, "prec": F(sc["prec"]),
-            "P0kg": [0.0, 0.0] if sc["P0"] is None else [
-                F(initial_perms(sc)[0].convert(KG, mix.first_component).value),
-                F(initial_perms(sc)[1].convert(KG, mix.second_component).value)],
+            # (the values the scenario was built from, in kg units - not read back from objects the library has held)
+            "P0kg": [0.0, 0.0] if sc["P0"] is None else [F(sc["P0"][0]), F(sc["P0"][1])],
             "ncurves": 0 if cs is None else len(cs.diffusion_curves),
             "Tcurve": F(cs.diffusion_curves[0].feed_temperature) if cs is not None else 0.0,
             "M1": F(mix.first_component.molecular_weight), "M2": F(mix.second_component.molecular_weight),
